@@ -42,7 +42,8 @@ def describe(tier):
         'of microseconds)',
         'override': 'set_time_override with a single instant, '
         'advance_time_delta by any delta within +-365 days at microsecond '
-        'resolution, advance_time_seconds by any integer in +-10^7',
+        'resolution, advance_time_seconds by any integer in +-10^7 and by '
+        'such an integer plus 1/2 or 63/64 s (float)',
         'marshalling': 'all seven fields symbolic over their ranges (valid '
         'calendar dates), naive and UTC; leap second',
         'outside': 'parse_isotime / ISO-string arguments (iso8601 not '
